@@ -163,6 +163,37 @@ func init() {
 		"verifFloatGe8": func(fr *frame, args []value) value {
 			return binop(fr.i, token.GEQ, nil, args[0], args[1])
 		},
+		// the ...Tol variants carry the same tolerance as the native twins, so that a counterexample differs by
+		// more than the rendering can hide and reproduces natively; FP subtraction makes them expensive: the
+		// harnesses reach them only on paths where the exact comparison has already failed
+		"verifFloatEq8Tol": func(fr *frame, args []value) value {
+			f64 := types.Typ[types.Float64]
+			le := func(x, y value) value {
+				return binop(fr.i, token.LEQ, f64, binop(fr.i, token.SUB, f64, x, y), float64(0.6e-8))
+			}
+			a, b := le(args[0], args[1]), le(args[1], args[0])
+			ab, aok := a.(bool)
+			bb, bok := b.(bool)
+			switch {
+			case aok && bok:
+				return ab && bb
+			case aok:
+				if !ab {
+					return false
+				}
+				return b
+			case bok:
+				if !bb {
+					return false
+				}
+				return a
+			}
+			return symBool{fr.i.tc.And(a.(symBool).t, b.(symBool).t)}
+		},
+		"verifFloatGe8Tol": func(fr *frame, args []value) value {
+			f64 := types.Typ[types.Float64]
+			return binop(fr.i, token.GEQ, f64, args[0], binop(fr.i, token.SUB, f64, args[1], float64(0.6e-8)))
+		},
 		"verifDeepEqual": func(fr *frame, args []value) value {
 			a, b := args[0].(iface), args[1].(iface)
 			if !sameType(a.t, b.t) {
